@@ -135,6 +135,7 @@ type Sim struct {
 	rem                          *remote
 	remoteChecks                 int
 	resurrections                int
+	closeQueued                  int
 	wseqChecks                   int
 	forceSet                     []*simTable // table set of the next RunTxn (nested transactions)
 	forcedMore                   []forcedOp  // further operations of the forced transaction
@@ -979,6 +980,7 @@ func (s *Sim) Finish(nontrivial bool) {
 	s.R.Count("remote_queries_compared", int64(s.remoteChecks))
 	s.R.Count("prefix_key_collapse_macros", int64(s.collapses))
 	s.R.Count("dead_objects_resurrected_under_the_collector", int64(s.resurrections))
+	s.R.Count("registrations_while_a_close_is_queued", int64(s.closeQueued))
 	if s.R.WantSample() {
 		tail := s.Log
 		if len(tail) > 45 {
